@@ -134,12 +134,14 @@ var subjRE = regexp.MustCompile(`^subj (\d+)$`)
 // empty and long metadata. The source (buildRaw) keeps its plain MIME header in every shape.
 //
 //	1: To = []          2: From = empty address     3: Subject = ""     4: To = [one empty address]
+//	8: From = "Sender <tag>" <shared@src.example>, To = ["Rcpt <tag>" <shared@dst.example>]: display names differ, the
+//	   bare addresses are the same for every message of this shape
 //	5: To = 60 / 2 / 257 / 1025 addresses (by tag%4)     6: To = [] and Subject = ""     7: From = empty address and To = []
 func shapeOf(tag int) int {
 	if tag < 400 {
 		return 0
 	}
-	return 1 + (tag/4)%7
+	return 1 + (tag/4)%8
 }
 
 // recipients of the long-list shape: spread over orders of magnitude and next to powers of two
@@ -149,6 +151,8 @@ func metaFrom(tag int) *mail.Address {
 	switch shapeOf(tag) {
 	case 2, 7:
 		return &mail.Address{}
+	case 8:
+		return &mail.Address{Name: fmt.Sprintf("Sender %d", tag), Address: "shared@src.example"}
 	}
 	return &mail.Address{Address: tagFrom(tag)}
 }
@@ -159,6 +163,8 @@ func metaTo(tag int) []*mail.Address {
 		return []*mail.Address{}
 	case 4:
 		return []*mail.Address{{}}
+	case 8:
+		return []*mail.Address{{Name: fmt.Sprintf("Rcpt %d", tag), Address: "shared@dst.example"}}
 	case 5:
 		l := make([]*mail.Address, longTo(tag))
 		for i := range l {
@@ -178,8 +184,8 @@ func metaSubject(tag int) string {
 }
 
 var (
-	metaFromRE = regexp.MustCompile(`^<f(\d+)@src\.example>$`)
-	metaToRE   = regexp.MustCompile(`^<t(\d+)(?:-0)?@dst\.example>$`)
+	metaFromRE = regexp.MustCompile(`^(?:<f|Sender )(\d+)(?:@src\.example>| <shared@src\.example>)$`)
+	metaToRE   = regexp.MustCompile(`^(?:<t|Rcpt )(\d+)(?:(?:-0)?@dst\.example>| <shared@dst\.example>)$`)
 )
 
 func sameList(a, b []string) bool {
